@@ -188,3 +188,25 @@ pub fn t_to_base64() {
     core::mem::forget(e);
     assert!(txt_ok, "C12: the text form is enr: followed by the unpadded URL-safe base64 of the encoding");
 }
+
+/// every ASCII text of length 0..=5 through from_str: rejected with an error value, no panic
+#[cfg_attr(kani, kani::proof)]
+#[cfg_attr(kani, kani::stub(enr::digest, digest_stub))]
+#[cfg_attr(kani, kani::stub(enr::Enr::id, id_stub))]
+#[cfg_attr(kani, kani::stub(alloc::fmt::format, format_stub))]
+pub fn t_any_small() {
+    oracle_yes();
+    let b: [u8; 5] = sym::bytes::<5>();
+    sym::assume(b[0] < 0x80 && b[1] < 0x80 && b[2] < 0x80 && b[3] < 0x80 && b[4] < 0x80);
+    let n = sym::u8();
+    sym::assume(n <= 5);
+    let mut any = false;
+    macro_rules! go { ($len:expr) => { if n == $len { any = parses(unsafe { core::str::from_utf8_unchecked(&b[..$len]) }); } }; }
+    go!(0);
+    go!(1);
+    go!(2);
+    go!(3);
+    go!(4);
+    go!(5);
+    assert!(!any, "C12: the parser accepts the canonical text with or without the prefix and nothing else");
+}
